@@ -147,12 +147,15 @@ package peers
 // would be put on cool-down in a pool that does not hold it, and be offered again at once.
 // $Sel<i>: case i of the select was taken (0: the datahash pool's channel, 1: the nodes pool's channel).
 //@ pure func poolListed(p *pool) bool = forall i int :: 0 <= i && i < len(p.peersList) ==> has(p.statuses, p.peersList[i])
+// (a pool owns its status map and its peer list: two different pools share neither - newPool makes both afresh,
+// and nothing outside pool.go touches them)
+//@ pure func poolSep(a *pool, b *pool) bool = a.statuses != b.statuses && !sameArray(a.peersList, b.peersList)
 //@ pure func activeIn(p *pool, id peer.ID) bool = has(p.statuses, id) && p.statuses[id] == active
 
 // (pools handed out by the manager satisfy the pool invariant that every pool operation preserves)
 // (call-site view of validatedPool; the body view below checks what is added to the nodes pool)
 //@ extern (*github.com/celestiaorg/celestia-node/share/shwap/p2p/shrex/peers.Manager).validatedPool
-//@   ensures result != nil && result.pool != nil && result.pool != m.nodes && poolListed(result.pool)
+//@   ensures result != nil && result.pool != nil && result.pool != m.nodes && poolListed(result.pool) && poolSep(result.pool, m.nodes)
 //@   ensures m.nodes == old(m.nodes) && poolListed(m.nodes)
 //@ func (*Manager).validatedPool
 //@   property C17
@@ -162,10 +165,15 @@ package peers
 
 //@ func (*Manager).removeIfUnreachable
 //@   property C17
-//@   trusted
 //@   params m sp peerID
+//@   requires m != nil && m.nodes != nil && sp != nil && sp.pool != nil && !$PoolLocked && !$QueueLocked
+//@   requires sp.pool != m.nodes && poolSep(sp.pool, m.nodes)
 //@   modifies sp.pool
+//@   modifies sp.pool.statuses
+//@   modifies sp.pool.peersList
 //@   ensures !result ==> deref(sp.pool) == old(deref(sp.pool)) && (forall id peer.ID :: activeIn(sp.pool, id) == old(activeIn(sp.pool, id)))
+//@   ensures !result ==> !blacklisted(peerID)
+//@   ensures !$PoolLocked && !$QueueLocked
 
 // (read-only pool operations: they take the pool lock and write nothing)
 //@ func (*pool).len
@@ -179,6 +187,16 @@ package peers
 //@ func (*pool).next
 //@   property C17
 //@   trusted
+// (body view of the goroutine next starts: whatever it sends on the result channel is a peer that tryGet
+// just found active in this pool; it holds no lock while it waits)
+//@ func (*pool).next$1
+//@   property C17
+//@   noframe
+//@   requires p != nil && !$PoolLocked && !$QueueLocked
+//@   requires forall i int :: 0 <= i && i < len(p.peersList) ==> has(p.statuses, p.peersList[i])
+//@   callpre chan.send: has(p.statuses, $arg1) && p.statuses[$arg1] == active
+//@   loop 1: invariant p != nil && !$PoolLocked && !$QueueLocked
+//@   loop 1: invariant forall i int :: 0 <= i && i < len(p.peersList) ==> has(p.statuses, p.peersList[i])
 
 //@ func (*Manager).Peer
 //@   property C17
@@ -196,10 +214,15 @@ package peers
 // "discovered_nodes", otherwise the pool of the data hash; the peer it cools down is the one it was made for.
 //@ pure func poolInv(p *pool) bool = p.activeCount == countEq(p.statuses, active) && p.cooldown != nil
 // (pools registered in the manager satisfy the pool invariant; the data-hash pools are distinct from the nodes pool)
+//@ extern (*github.com/celestiaorg/celestia-node/share/shwap/p2p/shrex/peers.Manager).getPool
+//@   ensures result != nil ==> result.pool != nil && result.pool != m.nodes && poolInv(result.pool)
+// (body view: the pool handed back is the one registered under the data hash asked for, nil when there is none;
+// the table is not touched)
 //@ func (*Manager).getPool
 //@   property C17
-//@   trusted
-//@   ensures result != nil ==> result.pool != nil && result.pool != m.nodes && poolInv(result.pool)
+//@   requires m != nil
+//@   checks has(m.pools, datahash) ==> result == m.pools[datahash]
+//@   checks !has(m.pools, datahash) ==> result == nil
 
 //@ func (*Manager).doneFunc$1
 //@   property C17
@@ -219,11 +242,28 @@ package peers
 //@   ensures result <==> !blacklisted(p)
 
 // (pools registered in the manager satisfy the pool invariant; creating one touches only the pool table)
-//@ func (*Manager).getOrCreatePool
-//@   property C17
-//@   trusted
+//@ extern (*github.com/celestiaorg/celestia-node/share/shwap/p2p/shrex/peers.Manager).getOrCreatePool
 //@   ensures result != nil && result.pool != nil && result.pool != m.nodes && poolInv(result.pool) && result.pool.statuses != m.nodes.statuses
 //@   ensures m.nodes == old(m.nodes) && m.connGater == old(m.connGater) && deref(m.nodes) == old(deref(m.nodes))
+// (body view: an existing entry is handed back as it is; a missing one is made by newPool - fresh, empty,
+// satisfying the pool invariant - and registered under the data hash asked for, and under no other)
+//@ func (*Manager).getOrCreatePool
+//@   property C17
+//@   requires m != nil
+//@   modifies m.pools
+//@   checks result != nil ==> has(m.pools, datahash) && m.pools[datahash] == result
+//@   checks old(has(m.pools, datahash)) ==> result == old(m.pools[datahash])
+//@   checks !old(has(m.pools, datahash)) ==> result != nil && isFresh(result) && result.pool != nil && isFresh(result.pool) && poolInv(result.pool) && result.height == height
+//@   ensures forall k string :: k != datahash ==> has(m.pools, k) == old(has(m.pools, k)) && m.pools[k] == old(m.pools[k])
+//@   ensures m.nodes == old(m.nodes) && m.connGater == old(m.connGater) && deref(m.nodes) == old(deref(m.nodes))
+
+//@ func newTimedQueue
+//@   property C17
+//@   ensures result != nil && isFresh(result) && len(result.items) == 0 && result.ttl == ttl
+
+//@ func newPool
+//@   property C17
+//@   ensures result != nil && isFresh(result) && poolInv(result) && result.activeCount == 0 && len(result.peersList) == 0 && len(result.statuses) == 0
 
 //@ func (*Manager).isBlacklistedPeer
 //@   property C17
